@@ -45,3 +45,87 @@ CONTRACTS = [
                      **KEPT}},
              ),
 ]
+
+
+# ---- the same function applied to a TemporalHypergraph (records keyed (time, node tuple); removal through remove_edge(edge[1], edge[0]))
+MUT_T = ["_adj", "_node_metadata", "_edge_list", "_reverse_edge_list", "_weights", "_edge_metadata"]
+CONTRACTS.append(
+    Contract("filter_hypergraph[TemporalHypergraph]", FILE, ["filter_hypergraph"], properties=["C19"],
+             params={"hypergraph": "Obj[TemporalHypergraph]", "node_criteria": "Opt[Meta]", "edge_criteria": "Opt[Meta]", "mode": "Str", "keep_edges": "Bool"},
+             fixed={"keep_edges": False},
+             locals={"nodes_to_process": "Bag[Int]", "edges_to_process": "Bag[Pair[Int,Tup]]"},
+             requires={"wf": "wf(hypergraph)"},
+             raises={"ValueError": 'mode != "keep" and mode != "remove"'},
+             modifies_args={"hypergraph": MUT_T},
+             ensures={
+                 "wf": "wf(hypergraph)",
+                 "V": f"all((n in V(hypergraph)) == (n in V(old(hypergraph)) and not {RMN}) for n in Node)",
+                 "E": f"all((k in E(hypergraph)) == (k in E(old(hypergraph)) and all(n in V(hypergraph) for n in snd(k)) and not {RME}) for k in Key)",
+                 **KEPT},
+             invariants={
+                 0: {"list": f"all(count(nodes_to_process, n) == (1 if n in _done0 and {RMN} else 0) for n in Node)"},
+                 1: {"wf": "wf(hypergraph)",
+                     "V": "all((n in V(hypergraph)) == (n in V(old(hypergraph)) and count(_done1, n) == 0) for n in Node)",
+                     "E": "all((k in E(hypergraph)) == (k in E(old(hypergraph)) and all(count(_done1, n) == 0 for n in snd(k))) for k in Key)",
+                     **KEPT},
+                 2: {"list": f"all(count(edges_to_process, k) == (1 if k in _done2 and {RME} else 0) for k in Key)"},
+                 3: {"wf": "wf(hypergraph)", "V": "V(hypergraph) == pre(V(hypergraph))",
+                     "E": "all((k in E(hypergraph)) == (k in pre(E(hypergraph)) and count(_done3, k) == 0) for k in Key)",
+                     **KEPT}},
+             ))
+
+
+# ---- and to a MultiplexHypergraph (records keyed (node tuple, layer); removal through remove_edge((nodes, layer)))
+CONTRACTS.append(
+    Contract("filter_hypergraph[MultiplexHypergraph]", FILE, ["filter_hypergraph"], properties=["C19"],
+             params={"hypergraph": "Obj[MultiplexHypergraph]", "node_criteria": "Opt[Meta]", "edge_criteria": "Opt[Meta]", "mode": "Str", "keep_edges": "Bool"},
+             fixed={"keep_edges": False},
+             locals={"nodes_to_process": "Bag[Int]", "edges_to_process": "Bag[Pair[Tup,Layer]]"},
+             requires={"wf": "wf(hypergraph)"},
+             raises={"ValueError": 'mode != "keep" and mode != "remove"'},
+             modifies_args={"hypergraph": MUT_T},
+             ensures={
+                 "wf": "wf(hypergraph)",
+                 "V": f"all((n in V(hypergraph)) == (n in V(old(hypergraph)) and not {RMN}) for n in Node)",
+                 "E": f"all((k in E(hypergraph)) == (k in E(old(hypergraph)) and all(n in V(hypergraph) for n in fst(k)) and not {RME}) for k in Key)",
+                 **KEPT},
+             invariants={
+                 0: {"list": f"all(count(nodes_to_process, n) == (1 if n in _done0 and {RMN} else 0) for n in Node)"},
+                 1: {"wf": "wf(hypergraph)",
+                     "V": "all((n in V(hypergraph)) == (n in V(old(hypergraph)) and count(_done1, n) == 0) for n in Node)",
+                     "E": "all((k in E(hypergraph)) == (k in E(old(hypergraph)) and all(count(_done1, n) == 0 for n in fst(k))) for k in Key)",
+                     **KEPT},
+                 2: {"list": f"all(count(edges_to_process, k) == (1 if k in _done2 and {RME} else 0) for k in Key)"},
+                 3: {"wf": "wf(hypergraph)", "V": "V(hypergraph) == pre(V(hypergraph))",
+                     "E": "all((k in E(hypergraph)) == (k in pre(E(hypergraph)) and count(_done3, k) == 0) for k in Key)",
+                     **KEPT}},
+             ))
+
+
+# ---- and to a DirectedHypergraph (keys (source tuple, target tuple))
+MUT_D = ["_adj_source", "_adj_target", "_node_metadata", "_edge_list", "_reverse_edge_list", "_weights", "_edge_metadata"]
+IN_K = "all(n in V(hypergraph) for n in fst(k)) and all(n in V(hypergraph) for n in snd(k))"
+CONTRACTS.append(
+    Contract("filter_hypergraph[DirectedHypergraph]", FILE, ["filter_hypergraph"], properties=["C19"],
+             params={"hypergraph": "Obj[DirectedHypergraph]", "node_criteria": "Opt[Meta]", "edge_criteria": "Opt[Meta]", "mode": "Str", "keep_edges": "Bool"},
+             fixed={"keep_edges": False},
+             locals={"nodes_to_process": "Bag[Int]", "edges_to_process": "Bag[Pair[Tup,Tup]]"},
+             requires={"wf": "wf(hypergraph)"},
+             raises={"ValueError": 'mode != "keep" and mode != "remove"'},
+             modifies_args={"hypergraph": MUT_D},
+             ensures={
+                 "wf": "wf(hypergraph)",
+                 "V": f"all((n in V(hypergraph)) == (n in V(old(hypergraph)) and not {RMN}) for n in Node)",
+                 "E": f"all((k in E(hypergraph)) == (k in E(old(hypergraph)) and {IN_K} and not {RME}) for k in Key)",
+                 **KEPT},
+             invariants={
+                 0: {"list": f"all(count(nodes_to_process, n) == (1 if n in _done0 and {RMN} else 0) for n in Node)"},
+                 1: {"wf": "wf(hypergraph)",
+                     "V": "all((n in V(hypergraph)) == (n in V(old(hypergraph)) and count(_done1, n) == 0) for n in Node)",
+                     "E": "all((k in E(hypergraph)) == (k in E(old(hypergraph)) and all(count(_done1, n) == 0 for n in fst(k)) and all(count(_done1, n) == 0 for n in snd(k))) for k in Key)",
+                     **KEPT},
+                 2: {"list": f"all(count(edges_to_process, k) == (1 if k in _done2 and {RME} else 0) for k in Key)"},
+                 3: {"wf": "wf(hypergraph)", "V": "V(hypergraph) == pre(V(hypergraph))",
+                     "E": "all((k in E(hypergraph)) == (k in pre(E(hypergraph)) and count(_done3, k) == 0) for k in Key)",
+                     **KEPT}},
+             ))
